@@ -54,6 +54,7 @@ type qState struct {
 	read    int      // index of the next event the reader will deliver
 
 	readMark int // position of the live reader instance
+	skipMode int // > 0: events may be abandoned (Next without reading everything)
 	cbSeen   uint
 	marks    []qMark // state after every API call (for the crash oracle)
 
@@ -179,6 +180,23 @@ func (s *qState) readEvents(max, bl int) {
 		}
 		want := s.events[s.read]
 		verifAssert(n == len(want), "Next reports the size of the next event in append order")
+		if s.skipMode > 0 {
+			// abandon the event: read nothing or only a part of it; the following Next skips the rest
+			if mode := verifChoose(3); mode > 0 {
+				if mode == 2 && n > 1 {
+					part := make([]byte, n/2)
+					m, rerr := s.r.Read(part)
+					verifAssert(rerr == nil && m == len(part), "partial Read succeeds")
+					verifAssert(verifBytesEqual(part, want[:len(part)]), "the partially read bytes are the first bytes of the event")
+				}
+				s.read++
+				s.readMark = s.read
+				avail, aerr := s.r.Available()
+				verifAssert(aerr == nil, "Reader.Available succeeds")
+				verifAssert(int(avail) == s.flushed-s.read || int(avail) == s.flushed-s.read+1, "Available counts the abandoned event at most until the next call of Next")
+				continue
+			}
+		}
 		got := make([]byte, 0, n)
 		buf := make([]byte, bl)
 		for len(got) < n {
@@ -265,9 +283,18 @@ func VerifQueueFIFO() {
 	if verifParam("readearly", 0) == 1 && bl == 1 {
 		bl = 3
 	}
+	s.skipMode = verifParam("skip", 0)
 	s.readEvents(nEv+1, bl)
 	verifAssert(s.read == len(s.events), "every flushed event was delivered exactly once, in order")
 	s.checkCounters("after reading")
+	if s.skipMode > 0 {
+		// the reader sits at the tail (possibly after abandoning the last event); more events arrive
+		s.skipMode = 0
+		verifAssert(s.appendEvent(pickSize(), 1), "append succeeds")
+		verifAssert(s.flush(), "Flush succeeds")
+		s.readEvents(2, 4096)
+		verifAssert(s.read == len(s.events), "an event appended after the reader reached the tail is delivered")
+	}
 	s.ack(s.read - s.acked)
 	verifAssert(s.cbACKed == uint(s.acked), "the ACKed callback reported every ACKed event")
 	s.checkCounters("after the ACK")
@@ -293,7 +320,14 @@ func VerifQueueReopen() {
 		}
 	}
 	if reopenAt == nEv {
-		s.reopen() // Close flushes what is buffered
+		if verifBool("partial") {
+			// an unfinished event (Write without Next) is in the buffer while a flush happens
+			k, werr := s.w.Write(eventData(99, 300))
+			s.sync()
+			verifAssert(werr == nil && k == 300, "Write succeeds")
+			verifAssert(s.flush(), "Flush succeeds")
+		}
+		s.reopen() // Close flushes what is buffered; the unfinished event is dropped
 		s.checkCounters("after reopen")
 	}
 	verifAssert(s.flush(), "Flush succeeds")
